@@ -26,4 +26,22 @@ PROPS = {
         "theorems": ["offset_exact_or_overflow", "durationSince_exact_or_overflow", "ext_eq_by_value"],
         "assumptions": ["extension values are read from the Debug form of the private structs (Decimal{value}, IPAddr{addr,prefix}, DateTime{epoch}, Duration{ms})"],
     },
+    "C12": {
+        "streams": [("c12", 12, 2400)],
+        "definitional": False,
+        "rule": "policy-set texts: 28 hand-written surface-syntax policies (trailing commas at every Comma<E> site, templates, annotations, "
+                "every operator, nested unary ops, keywords as keys, long lines, multi-line strings) + generated programs of 1-4 policies (c01 policy "
+                "generator, gen.rs expressions via Display, annotations, parse-validated surface mutations: trailing commas, parentheses, blank lines/CRLF/tabs); "
+                "per program: comment-free text on the full grid line_width {1,20,40,80,120} x indent {0,2,4,8} with idempotence; one comment injected at EACH token "
+                "boundary in turn in 3 styles (trailing, own line, two lines with blank line) with configs rotating over the grid (full grid on 2 corpus programs in "
+                "quick, on all in thorough); comments at all boundaries at once; every output re-formatted under the same and another config; "
+                "predicates: no error/panic, parse(output) structurally identical (ids, effect, annotations + order, scope, eq_shape; templates included), "
+                "comments preserved in order (independent scanner), fmt(fmt(x))==fmt(x) on comment-free text, token sequence unchanged up to trailing commas; "
+                "model lines: token stream + comment attachment of the formatter's lexer vs the Lean mirror on inputs and outputs; "
+                "non-trivial = program with >=25 tokens (distinct by text)",
+        "theorems": ["render_tokens", "render_comment_safe", "toDoc_tokens_partial", "toDoc_comments_partial", "toDocFixed_comments", "toDoc_safe", "pipeline_correct"],
+        "assumptions": ["theorems cover the abstract layout algebra and the expression-CST core with resolved tokens; the `pretty` crate, the span lookups of utils.rs, "
+                        "Policy/VariableDef/Cond/Annotation docs, remove_empty_lines and the string-level re-lexing of outputs are covered by the differential/property run only",
+                        "comment identity = trimmed text of the comment line"],
+    },
 }
